@@ -1,6 +1,12 @@
+from vlib.props import pcommon
 from vlib.props import lr_props
 
 
 def check(run, only=None):
     if only in (None, "B"):
         run.add_bounded(lr_props.run_bounded("C04", run.tier))
+    if only in (None, "P"):
+        from vlib.companions import parserfuncs as pf
+        pcommon.add_proof(run, "C04", ["parglare.parser.Parser._check_parser"], [pf.run_misc],
+                          "_check_parser: SRConflicts / RRConflicts raised iff an unhandled conflict exists (construction is "
+                          "gated by the table's conflict lists)")
